@@ -483,3 +483,41 @@ def eq_values(t: T, a, b):
     """z3 Bool: component-wise equality of two values of type t (extensional on arrays)."""
     ca, cb = pack(t, a), pack(t, b)
     return z3.And(*[x == y for x, y in zip(ca, cb)]) if ca else z3.BoolVal(True)
+
+
+def FA(vs, body, patterns=None, **kw):
+    """z3.ForAll that drops the trigger annotations when z3 rejects them (e.g. a pattern over a beta-reducible lambda array)"""
+    if patterns:
+        patterns = [p for p in patterns if _pattern_ok(p)]
+    if patterns:
+        try:
+            return z3.ForAll(vs, body, patterns=patterns, **kw)
+        except z3.Z3Exception:
+            pass
+    return z3.ForAll(vs, body, **kw)
+
+
+_BAD_IN_PATTERN = None
+
+
+def _pattern_ok(p):
+    """z3 ignores (with a warning) patterns that contain logical connectives / ite: drop them ourselves"""
+    global _BAD_IN_PATTERN
+    if _BAD_IN_PATTERN is None:
+        _BAD_IN_PATTERN = {z3.Z3_OP_ITE, z3.Z3_OP_NOT, z3.Z3_OP_AND, z3.Z3_OP_OR, z3.Z3_OP_IMPLIES, z3.Z3_OP_EQ, z3.Z3_OP_LE, z3.Z3_OP_LT,
+                           z3.Z3_OP_GE, z3.Z3_OP_GT, z3.Z3_OP_DISTINCT}
+    if isinstance(p, z3.PatternRef):
+        return True
+    seen, stack = set(), [p]
+    while stack:
+        t = stack.pop()
+        if t.get_id() in seen:
+            continue
+        seen.add(t.get_id())
+        if z3.is_quantifier(t):
+            return False
+        if z3.is_app(t):
+            if t.decl().kind() in _BAD_IN_PATTERN:
+                return False
+            stack.extend(t.children())
+    return True
